@@ -4,6 +4,8 @@ import SvgVerif.Model.PathParam
 import SvgVerif.Model.PathOps
 import SvgVerif.Model.PathState
 import SvgVerif.Model.CubicCache
+import SvgVerif.Model.ArcCache
+import SvgVerif.Model.SegHeap
 import SvgVerif.Model.InvArc
 import SvgVerif.Model.Parser
 import SvgVerif.Model.Lexer
@@ -109,6 +111,50 @@ def runCubCache (buggy : Bool) (line : List String) : String :=
         match b.toNat?, parseRat? e, d.toNat? with
         | some b, some e, some d =>
           let (v, c') := if buggy then cubicLengthBuggy compute c b e d else cubicLength compute c b e d
+          (c', s!"{v.1}:{showRat v.2.1}:{v.2.2}" :: os)
+        | _, _, _ => (c, "bad" :: os)
+      | _ => (c, "bad" :: os)) (none, [])
+  " ; ".intercalate outs.reverse
+
+/-! C16: the heap of Bezier segments and shared length records.  Control-point tuples are indices (`b` and `b+100` are
+each other's reversal), the integrator is the identity on its request except that tuples with index = 0 mod 100 have
+the falsy length 0 -/
+open SvgVerif.Model.SegHeap in
+def runSegHeap (line : List String) : String :=
+  match line with
+  | fx :: rest =>
+    let parts := (" ".intercalate rest).splitOn ";" |>.map words
+    let compute : Nat → Rat → Nat → (Nat × Rat × Nat) := fun b e d => if b % 100 = 0 then (0, 0, 0) else (b, e, d)
+    let rev : Nat → Nat := fun b => if b < 100 then b + 100 else b - 100
+    let truthy : (Nat × Rat × Nat) → Bool := fun v => v.1 % 100 != 0
+    let ops : List (Option (Op Nat Rat Nat)) := parts.map (fun ws =>
+      match ws with
+      | ["new", b] => b.toNat?.map Op.new
+      | ["set", o, b] => match o.toNat?, b.toNat? with | some o, some b => some (Op.setBp o b) | _, _ => none
+      | ["len", o, e, d] => match o.toNat?, parseRat? e, d.toNat? with | some o, some e, some d => some (Op.length o e d) | _, _, _ => none
+      | ["rev", o] => o.toNat?.map Op.reversed
+      | ["copy", o] => o.toNat?.map Op.copy
+      | ["deep", o] => o.toNat?.map Op.deepcopy
+      | _ => none)
+    if ops.any Option.isNone then "bad-op" else
+    let outs := run (fx == "1") compute rev truthy (Heap.empty : Heap Nat Rat Nat (Nat × Rat × Nat)) (ops.filterMap id)
+    " ; ".intercalate (outs.map (fun o => match o with
+      | none => "-"
+      | some v => if v.1 % 100 = 0 then "0" else s!"{v.1}:{showRat v.2.1}:{v.2.2}"))
+  | _ => "bad-op"
+
+/-! C16/C06: Arc.length cache; `hash` is the identity on the index of the field set, the integrator the identity on its request -/
+open SvgVerif.Model.ArcCache in
+def runArcCache (line : List String) : String :=
+  let parts := (" ".intercalate line).splitOn ";" |>.map words
+  let compute : Nat → Rat → Nat → (Nat × Rat × Nat) := fun b e d => (b, e, d)
+  let (_, outs) := parts.foldl (fun (acc : Option (Entry Nat Rat Nat (Nat × Rat × Nat)) × List String) ws =>
+      let (c, os) := acc
+      match ws with
+      | ["req", b, e, d] =>
+        match b.toNat?, parseRat? e, d.toNat? with
+        | some b, some e, some d =>
+          let (v, c') := arcLength (fun (x : Nat) => x) compute c b e d
           (c', s!"{v.1}:{showRat v.2.1}:{v.2.2}" :: os)
         | _, _, _ => (c, "bad" :: os)
       | _ => (c, "bad" :: os)) (none, [])
@@ -962,6 +1008,8 @@ def handle (cmd : String) (args : List String) : String :=
   | "stall_buggy" => runStall true args
   | "cubcache" => runCubCache false args
   | "cubcache_buggy" => runCubCache true args
+  | "arccache" => runArcCache args
+  | "segheap" => runSegHeap args
   | "arcparam" => runArcParam args
   | "arcinit" => runArcInit args
   | "arcptt" => runArcPtt args
